@@ -93,7 +93,7 @@ def float_token_shape_ok(ctx):
         fn, ps, clos = scan_paths(ctx, '5', 'a')
         if len(set(clos)) != 1:
             return False, 'number scan: expected one skip_while predicate on the path of a digit, found %d' % len(set(clos))
-        tb = closure_table(F, clos[0], ['0', '5', '9', '.', 'a', ' ', '-', 'e', '_'], flags=(0, 1), captured=(0, 1))
+        tb = closure_table(F, clos[0], ['0', '5', '9', '.', 'a', ' ', '-', 'e', '_', '\u0665', '\u00b2', '\u00bd', '\uff11'], flags=(0, 1), captured=(0, 1))
         bad = []
         for (ch, fl, cap), (res, after) in sorted(tb.items()):
             if ch in '0123456789':
